@@ -54,8 +54,31 @@ func runC15(c *Ctx) {
 		return
 	}
 	bv := canon(loop.Value)
+	// local names are placeholders (§…): a rename does not change the verdict
+	bind := shapeBind{"§b": bv}
+	// parameters by position: mint, maxt, max resolution, block matchers
+	var params []string
+	for _, f := range fn.Decl.Type.Params.List {
+		for _, nm := range f.Names {
+			params = append(params, nm.Name)
+		}
+	}
+	if len(params) != 4 {
+		c.Incomplete("all-blocks-of-resolution-visited", construct, p.Pos(fn.Decl.Pos()), "unexpected signature")
+		return
+	}
+	pMint, pMaxt, pRes, pMatchers := params[0], params[1], params[2], params[3]
+	bind["§mint"], bind["§maxt"], bind["§maxres"], bind["§matchers"] = pMint, pMaxt, pRes, pMatchers
+	// the gap cursor: the local defined as `x := mint`
+	startName := ""
+	for _, st := range fn.Decl.Body.List {
+		if as, ok := st.(*ast.AssignStmt); ok && len(as.Lhs) == 1 && len(as.Rhs) == 1 && as.Tok == token.DEFINE && canon(as.Rhs[0]) == pMint {
+			startName = canon(as.Lhs[0])
+		}
+	}
+	bind["§start"] = startName
 	// (1)
-	c.Check(canon(loop.X) == "s.blocks[i]", "all-blocks-of-resolution-visited", construct+"#loop", p.Pos(loop.Pos()), "partial-scan",
+	c.Check(matchShape("§s.blocks[§i]", canon(loop.X), bind), "all-blocks-of-resolution-visited", construct+"#loop", p.Pos(loop.Pos()), "partial-scan",
 		"the scan ranges over "+canon(loop.X)+" instead of all blocks of the resolution (s.blocks[i]): with overlapping blocks MaxTime is not sorted, so a block that still overlaps the range can sit before any searched position")
 	if add := p.Func(rel, "bucketBlockSet", "add"); add == nil {
 		c.Incomplete("all-blocks-of-resolution-visited", rel+".(*bucketBlockSet).add", "", "function not found")
@@ -108,8 +131,10 @@ func runC15(c *Ctx) {
 			return "bmin"
 		case t == bv+".meta.MaxTime":
 			return "bmax"
-		case t == "mint" || t == "maxt":
-			return t
+		case t == pMint:
+			return "mint"
+		case t == pMaxt:
+			return "maxt"
 		}
 		return ""
 	}
@@ -222,7 +247,7 @@ func runC15(c *Ctx) {
 			if isSkip {
 				continue
 			}
-			if !strings.Contains(t, "blockMatchers") && !strings.Contains(t, "matchRelabelLabels") {
+			if !mentions(t, pMatchers) && !strings.Contains(t, "matchRelabelLabels") {
 				bad = "a visited block is kept only under `" + t + "`"
 			}
 		}
@@ -231,7 +256,7 @@ func runC15(c *Ctx) {
 
 	// (4)
 	okRes := resLoop != nil && resLoop.Cond != nil && len(resLoop.Body.List) == 0 &&
-		canon(resLoop.Cond) == "i<len(s.resolutions)&&s.resolutions[i]>maxResolutionMillis"
+		matchShape("§i<len(§s.resolutions)&&§s.resolutions[§i]>§maxres", canon(resLoop.Cond), bind)
 	c.Check(okRes, "resolution-steps", construct+"#first-allowed", p.Pos(fn.Decl.Pos()), "resolution-choice",
 		"the scan must start at the first resolution that is not above the requested maximum (resolutions are ordered coarse to fine)")
 	var recs []*ast.CallExpr
@@ -245,14 +270,14 @@ func runC15(c *Ctx) {
 	})
 	badRec := ""
 	for _, call := range recs {
-		if canon(call.Args[2]) != "s.resolutions[i+1]" {
+		if !matchShape("§s.resolutions[§i+1]", canon(call.Args[2]), bind) {
 			badRec = "a gap is filled at " + canon(call.Args[2]) + " instead of the next finer resolution"
 		}
-		if canon(call.Args[3]) != "blockMatchers" {
+		if canon(call.Args[3]) != pMatchers {
 			badRec = "gap filling drops the block matchers"
 		}
 		g := false
-		if is, ok := enclosingIf(p, fn, call); ok && canon(is.Cond) == "i+1<len(s.resolutions)" {
+		if is, ok := enclosingIf(p, fn, call); ok && matchShape("§i+1<len(§s.resolutions)", canon(is.Cond), bind) {
 			g = true
 		}
 		if !g {
@@ -269,10 +294,10 @@ func runC15(c *Ctx) {
 	for _, call := range recs {
 		a0, a1 := canon(call.Args[0]), canon(call.Args[1])
 		inLoop := loop.Body.Pos() <= call.Pos() && call.End() <= loop.Body.End()
-		if inLoop && a0 == "start" && a1 == bv+".meta.MinTime-1" {
+		if inLoop && startName != "" && a0 == startName && a1 == bv+".meta.MinTime-1" {
 			front = true
 		}
-		if !inLoop && call.Pos() > loop.End() && a0 == "start" && a1 == "maxt" {
+		if !inLoop && call.Pos() > loop.End() && startName != "" && a0 == startName && a1 == pMaxt {
 			tail = true
 		}
 	}
@@ -280,7 +305,7 @@ func runC15(c *Ctx) {
 	c.Check(tail, "gap-requests", construct+"#tail", p.Pos(fn.Decl.Pos()), "tail-gap", "the gap after the last block must be requested as [start, maxt]")
 	initOK := false
 	for _, st := range fn.Decl.Body.List {
-		if as, ok := st.(*ast.AssignStmt); ok && len(as.Lhs) == 1 && canon(as.Lhs[0]) == "start" && as.Tok == token.DEFINE && canon(as.Rhs[0]) == "mint" {
+		if as, ok := st.(*ast.AssignStmt); ok && len(as.Lhs) == 1 && startName != "" && canon(as.Lhs[0]) == startName && as.Tok == token.DEFINE && canon(as.Rhs[0]) == pMint {
 			initOK = true
 		}
 	}
@@ -288,17 +313,17 @@ func runC15(c *Ctx) {
 	mono, nAssign, pos := true, 0, p.Pos(loop.Pos())
 	ast.Inspect(loop.Body, func(nd ast.Node) bool {
 		as, ok := nd.(*ast.AssignStmt)
-		if !ok || len(as.Lhs) != 1 || canon(as.Lhs[0]) != "start" {
+		if !ok || len(as.Lhs) != 1 || startName == "" || canon(as.Lhs[0]) != startName {
 			return true
 		}
 		nAssign++
 		pos = p.Pos(as.Pos())
 		r := canon(as.Rhs[0])
-		okMax := r == "max(start,"+bv+".meta.MaxTime)" || r == "max("+bv+".meta.MaxTime,start)"
+		okMax := r == "max("+startName+","+bv+".meta.MaxTime)" || r == "max("+bv+".meta.MaxTime,"+startName+")"
 		okGuard := false
 		if is, ok := enclosingIf(p, fn, as); ok && r == bv+".meta.MaxTime" {
 			t := canon(is.Cond)
-			if t == bv+".meta.MaxTime>start" || t == "start<"+bv+".meta.MaxTime" {
+			if t == bv+".meta.MaxTime>"+startName || t == startName+"<"+bv+".meta.MaxTime" {
 				okGuard = true
 			}
 		}
